@@ -51,8 +51,10 @@ THEOREMS = [
     "Measured.Obligations.Direct.shipped_fundamental_dimensions", "Measured.Obligations.Direct.single_factor_inhabited",
     "Measured.Obligations.Direct.simple_inhabited",
     "Measured.matchFactors_refactor", "Measured.reach2_graphOK",
+    "Measured.convert_simple_near", "Measured.Obligations.NearShipped.shipped_simple_conversions_near",
+    "Measured.Obligations.NearShipped.shipped_simple_inhabited",
 ]
-LEAN_TARGETS = ["Props.C05", "Proofs.MatchRefactor", "Proofs.ReachSimple", "Obligations.C05", "Obligations.C05Direct"]
+LEAN_TARGETS = ["Props.C05", "Proofs.MatchRefactor", "Proofs.ReachSimple", "Obligations.C05", "Obligations.C05Direct", "Obligations.C05Near"]
 QUICK = {"chunks": 4, "ops": 1500}
 THOROUGH = {"chunks": 16, "ops": 9000}
 RTOL = 1e-11
